@@ -912,7 +912,7 @@ func init() {
 			{Name: "strace", Cases: cases(16, 160), Run: c19StraceRun},
 		},
 		Floors: func(string) map[string]int64 {
-			return map[string]int64{"fault_points_inprocess": 5000, "fault_points_close": 300, "fault_points_truncate": 300, "fault_points_strace": 300, "scripts_enumerated_exhaustively": 20}
+			return map[string]int64{"fault_points_inprocess": 5000, "fault_points_close": 300, "fault_points_truncate": 300, "fault_points_strace": 100, "scripts_enumerated_exhaustively": 6}
 		},
 	})
 }
